@@ -404,6 +404,14 @@ func (r *resourceManager) openConnection(dir network.Direction, usefd bool, endp
 		if allowed {
 			conn.Done()
 			conn = newAllowListedConnectionScope(dir, usefd, r.limits.GetConnLimits(), r, endpoint)
+			// conn.Done() above returned the slot in the per-subnet limiter. The
+			// allowlisted connection is still a connection from this IP: keep
+			// counting it, and let its Done release the slot.
+			if !r.connLimiter.addConn(ip) {
+				conn.Done()
+				return nil, fmt.Errorf("connections per ip limit exceeded for %s", endpoint)
+			}
+			conn.ip = ip
 			err = conn.AddConn(dir, usefd)
 		}
 	}
